@@ -89,8 +89,29 @@ def one(ctx: Ctx, cs, pname=None, **over):
             kind_at[(c.line, c.col)] = c.kind
     clef_ok = CX.all_notes_have_clef(doc)
     nontriv = any(c.kind == 'chord' and any(n.sigs for n in c.obj.notes[:-1]) for ln in doc.lines for c in ln.cells)
-    for sname, sel in SELECTIONS:
-        case = {'case_seed': cs, 'profile': pname, 'over': over, 'selection': sname, 'text': x}
+    relations(ctx, d, doc, rows, kind_at, clef_ok, SELECTIONS, {'case_seed': cs, 'profile': pname, 'over': over, 'text': x}, 'imported')
+    # derived documents are documents too: the result of a transposition (same grid, same cell kinds)
+    if cs % 3 == 0:
+        import random
+        rng = random.Random(cs)
+        d_fresh, _, _ = kpx.loads(x)
+        try:
+            t = d_fresh.to_transposed(rng.choice(['M2', 'P5', 'm3', 'P4', 'octave']), rng.choice(['up', 'down']))
+        except Exception:
+            t = None
+        if t is not None:
+            ctx.mon('derived_documents')
+            relations(ctx, t, doc, rows, kind_at, clef_ok, SELECTIONS[:2] + SELECTIONS[3:4],
+                      {'case_seed': cs, 'profile': pname, 'over': over, 'text': x, 'derived': 'to_transposed'}, 'transposed')
+    if nontriv:
+        ctx.nontriv(x)
+    if len(ctx.samples) < 2 and nontriv and len(x) < 600:
+        ctx.sample({'case_seed': cs, 'text': x, 'bekern': kpx.dumps(d, encoding=kpx.Enc.bEkern)[0]})
+
+
+def relations(ctx, d, doc, rows, kind_at, clef_ok, selections, case0, label):
+    for sname, sel in selections:
+        case = dict(case0, selection=sname)
         out = {}
         failed = False
         for name, enc in kpx.ENC_BY_NAME.items():
@@ -107,7 +128,7 @@ def one(ctx: Ctx, cs, pname=None, **over):
                     ctx.mon(f'agnostic_export_raised:{type(exc).__name__}')
                     out[name] = None
                     continue
-                ctx.violation('export-raises', f'{name} export [{sname}] raised {type(exc).__name__}: {exc}', case)
+                ctx.violation('export-raises', f'[{label}] {name} export [{sname}] raised {type(exc).__name__}: {exc}', case)
                 failed = True
                 break
             out[name] = t
@@ -128,7 +149,7 @@ def one(ctx: Ctx, cs, pname=None, **over):
                 exp_rows[0] = ['**' + kpx.PREFIX[plain] + c[2 + len(kpx.PREFIX[ext]):] for c in ge[0]]
             if gp != exp_rows:
                 k = next((i for i in range(min(len(gp), len(exp_rows))) if gp[i] != exp_rows[i]), min(len(gp), len(exp_rows)))
-                ctx.violation('plain-vs-extended', f'{plain} != {ext} without separators [{sname}], line {k + 1}: '
+                ctx.violation('plain-vs-extended', f'[{label}] {plain} != {ext} without separators [{sname}], line {k + 1}: '
                               f'{gp[k] if k < len(gp) else "<end>"} vs {exp_rows[k] if k < len(exp_rows) else "<end>"}', case)
         # headers
         types = doc.headers
@@ -170,7 +191,7 @@ def one(ctx: Ctx, cs, pname=None, **over):
                 exp = basic_of(oe, is_note)
                 if ob != exp:
                     key = 'basic-vs-full'
-                    ctx.violation(key, f'bekern cell {ob!r} != ekern cell {oe!r} with signifiers removed note by note '
+                    ctx.violation(key, f'[{label}] bekern cell {ob!r} != ekern cell {oe!r} with signifiers removed note by note '
                                   f'({exp!r}) [{sname}] (source {doc.lines[s.line].cells[s.col].text!r})', case)
         # non-note cells identical in the six encodings
         for name, t in out.items():
@@ -189,10 +210,6 @@ def one(ctx: Ctx, cs, pname=None, **over):
                     ctx.mon('non_note_cells_compared')
                     if oo != oe:
                         ctx.violation('non-note-cells', f'{s.kind} cell differs between ekern ({oe!r}) and {name} ({oo!r}) [{sname}]', case)
-    if nontriv:
-        ctx.nontriv(x)
-    if len(ctx.samples) < 2 and nontriv and len(x) < 600:
-        ctx.sample({'case_seed': cs, 'text': x, 'bekern': kpx.dumps(d, encoding=kpx.Enc.bEkern)[0]})
 
 
 def align(g, src_rows):
